@@ -83,6 +83,10 @@ def build_predictor(p):
         tweak_state(pred, kind, rng)
     if p.get("n_obs_kind") == "np":
         pred.n_obs = np.int64(pred.n_obs)
+    elif p.get("n_obs_kind") == "frac":        # time-sensitive fits carry the mean cell count per time point
+        pred.n_obs = float(pred.n_obs) / 3.0 + 0.25
+    elif p.get("n_obs_kind") == "npfrac":
+        pred.n_obs = np.float64(pred.n_obs) / 3.0 + 0.25
     if p.get("mu_kind") == "jnp":
         pred.mu = jnp.asarray(pred.mu)
     elif p.get("mu_kind") == "np":
@@ -698,6 +702,8 @@ def run(ctx, res):
     for i, cls in enumerate(CLASSES):
         for unc in (False, True):
             run_case(ctx, res, gen_pred(rng, cls, unc, derivs=(not quick) or (i, unc) in ((0, True), (4, False), (8, True))))
+        if cls.endswith("Time"):     # the training size of a time-sensitive fit is a mean over time points: fractional
+            run_case(ctx, res, gen_pred(rng, cls, False, n_obs_kind=["frac", "npfrac"][i % 2]))
     # --- legacy dicts
     variants = ["oldname+no_n_obs+no_statevars+old_arrays", "oldname+no_n_obs+no_statevars", "no_n_obs", "no_statevars",
                 "oldname", "old_arrays", "plain"]
@@ -715,7 +721,7 @@ def run(ctx, res):
         kw = {}
         r = rng.random()
         if r < 0.2:
-            kw["n_obs_kind"] = "np"
+            kw["n_obs_kind"] = ["np", "frac", "npfrac"][i % 3]
         elif r < 0.4:
             kw["mu_kind"] = ["jnp", "np"][int(rng.integers(2))]
         run_case(ctx, res, gen_pred(rng, cls, bool(rng.integers(2)), state=states[i % 4], derivs=(i % 7 == 3), **kw))
